@@ -350,14 +350,17 @@ def _downstream(view: dict, seeds: set) -> set:
     return seen
 
 
-def signatures(inc: e3.BuildResult, scr: e3.BuildResult, diffs: list, triggers: list | None = None) -> dict:
-    """{signature: [diffs explained by it]}.  Named root causes first, generic for the rest."""
+def signatures(inc: e3.BuildResult, scr: e3.BuildResult, diffs: list, triggers: list | None = None,
+               earlier: list | None = None) -> dict:
+    """{signature: [diffs explained by it]}.  Named root causes first, generic for the rest.
+    ``earlier``: the results of the builds before the last incremental one (for F1)."""
     sigs: dict = {}
     if not diffs:
         return sigs
     # F1: the incremental directory no longer holds the final sources: a cleanup pass of an
     # earlier build removed a (then empty) source directory, and a plan that names it now fails.
-    gone = [p for p in _failed_missing(inc) if p.rstrip("/") + "/" in scr.dirs and p.rstrip("/") + "/" not in inc.dirs]
+    gone = [p for p in _failed_missing(inc) if p.rstrip("/") + "/" in scr.dirs and p.rstrip("/") + "/" not in inc.dirs
+            and (earlier is None or any(p.rstrip("/") + "/" in r.dirs for r in earlier))]
     if gone:
         return {SIG_F1: list(diffs)}
     # F2: a plan of the final sources names a static path that does not exist.  From scratch that
@@ -499,7 +502,7 @@ def run_case(case: dict) -> dict:
     history = case["history"]
     kw = dict(case.get("build") or {})
     kw.setdefault("resources", "tok:1")
-    kw.setdefault("timeout", 40)
+    kw.setdefault("timeout", 25)
     results = e3.run_history(project, history, mode=case.get("flavour", "restart"), **kw)
     skw = dict(kw)
     skw.pop("schedule", None)
@@ -512,7 +515,7 @@ def run_case(case: dict) -> dict:
 def case_signatures(case: dict, with_triggers: bool = False) -> dict:
     r = run_case(case)
     trig = edit_kinds(e3.Project.from_json(case["project"]), case["history"]) if with_triggers else None
-    return signatures(r["inc"], r["scr"], r["diffs"], trig)
+    return signatures(r["inc"], r["scr"], r["diffs"], trig, r["results"][:-1])
 
 
 # ---------------------------------------------------------------------------------------------
